@@ -750,3 +750,207 @@ def tbl12_xor_stream_fields(ctx):
     ctx.check('TBL-12', 'payload|variable-width', len(var_w) >= 2 and len(var_r) >= 1,
               'payload written with the window width (%d sites), read with the window width (%d sites)'
               % (len(var_w), len(var_r)), f)
+
+
+# ---------------------------------------------------------------------------- TBL-13
+class _Undecided(Exception):
+    pass
+
+
+_ORD = {'Ordering::Less': -1, 'Ordering::Equal': 0, 'Ordering::Greater': 1,
+        'Less': -1, 'Equal': 0, 'Greater': 1}
+
+
+def _cmp_eval(node, env, opaque):
+    """Evaluate a comparator body on representative values.  The bodies only *compare* their
+    arguments, so the three relations l<r, l=r, l>r (times the Some/None states for Option keys)
+    are a finite, complete set of inputs: no LocustDB code runs, the syntax tree is interpreted.
+    env: ident -> python value (ints; Option as None / ('S', v)).  opaque: value standing for a
+    call of a sibling `ordering` on the same arguments (or None)."""
+    k = node.get('k')
+    if k == 'block':
+        st = node.get('stmts', [])
+        if len(st) != 1:
+            raise _Undecided('block with %d statements' % len(st))
+        return _cmp_eval(st[0], env, opaque)
+    if k == 'paren':
+        return _cmp_eval(node['expr'], env, opaque)
+    if k == 'lit' and 'bool' in node:
+        return node['bool'] == 'true'
+    if k == 'ref':
+        return _cmp_eval(node['expr'], env, opaque)
+    if k == 'unary' and node.get('op') in ('*', '&'):
+        return _cmp_eval(node['expr'], env, opaque)
+    if k == 'unary' and node.get('op') == '!':
+        return not _cmp_eval(node['expr'], env, opaque)
+    if k == 'path':
+        p = node['path']
+        if p in env:
+            return env[p]
+        if p in _ORD:
+            return ('ord', _ORD[p])
+        raise _Undecided('path %s' % p)
+    if k == 'binary':
+        a = _key(_cmp_eval(node['lhs'], env, opaque))
+        b = _key(_cmp_eval(node['rhs'], env, opaque))
+        op = node['op']
+        return {'<': a < b, '<=': a <= b, '>': a > b, '>=': a >= b, '==': a == b, '!=': a != b}[op] \
+            if op in ('<', '<=', '>', '>=', '==', '!=') else _undecided('operator ' + op)
+    if k == 'mcall':
+        m = node['method']
+        if m == 'cmp' and len(node['args']) == 1:
+            a = _key(_cmp_eval(node['recv'], env, opaque))
+            b = _key(_cmp_eval(node['args'][0], env, opaque))
+            return ('ord', (a > b) - (a < b))
+        if m == 'reverse' and not node['args']:
+            v = _cmp_eval(node['recv'], env, opaque)
+            if isinstance(v, tuple) and v[0] == 'ord':
+                return ('ord', -v[1])
+        raise _Undecided('method ' + m)
+    if k == 'call':
+        f = (node.get('func') or {}).get('path', '')
+        if f.endswith('::ordering') and opaque is not None and \
+                [a.get('path') for a in node['args']] == ['left', 'right']:
+            return ('ord', opaque)
+        raise _Undecided('call ' + f)
+    if k == 'match':
+        v = _cmp_eval(node['scrutinee'], env, opaque)
+        for arm in node['arms']:
+            if arm.get('guard'):
+                raise _Undecided('match guard')
+            b = _pat_match(arm['pat'], v)
+            if b is not None:
+                e2 = dict(env)
+                e2.update(b)
+                return _cmp_eval(arm['body'], e2, opaque)
+        raise _Undecided('no arm matches')
+    if k == 'tuple':
+        return ('tup', [_cmp_eval(e, env, opaque) for e in node['elems']])
+    if k == 'if' and not node.get('let'):
+        c = _cmp_eval(node['cond'], env, opaque)
+        return _cmp_eval(node['then'] if c else node['else'], env, opaque)
+    raise _Undecided('node kind %s' % k)
+
+
+def _undecided(what):
+    raise _Undecided(what)
+
+
+def _key(v):
+    """Total order used by derived Ord: None < Some(x)."""
+    if v is None:
+        return (0, 0)
+    if isinstance(v, tuple) and v and v[0] == 'S':
+        return (1, v[1])
+    if isinstance(v, (int, float)):
+        return (1, v)
+    raise _Undecided('not an ordered value: %r' % (v,))
+
+
+def _pat_match(p, v):
+    k = p.get('k')
+    if k == 'p_wild':
+        return {}
+    if k == 'p_ident':
+        if p['name'] == 'None':
+            return {} if v is None else None
+        return {p['name']: v}
+    if k == 'p_path':
+        if p['path'] in _ORD:
+            return {} if v == ('ord', _ORD[p['path']]) else None
+        if p['path'] == 'None':
+            return {} if v is None else None
+        raise _Undecided('pattern path ' + p['path'])
+    if k == 'p_tuple_struct' and p['path'] in ('Some', 'Option::Some'):
+        if isinstance(v, tuple) and v and v[0] == 'S':
+            return _pat_match(p['elems'][0], v[1])
+        return None
+    if k == 'p_tuple':
+        if not (isinstance(v, tuple) and v[0] == 'tup' and len(v[1]) == len(p['elems'])):
+            raise _Undecided('tuple pattern on non-tuple')
+        out = {}
+        for pe, ve in zip(p['elems'], v[1]):
+            b = _pat_match(pe, ve)
+            if b is None:
+                return None
+            out.update(b)
+        return out
+    if k == 'p_or':
+        for alt in p.get('cases', p.get('elems', [])):
+            b = _pat_match(alt, v)
+            if b is not None:
+                return b
+        return None
+    raise _Undecided('pattern kind %s' % k)
+
+
+def tbl13_comparators(ctx):
+    ctx.rule('TBL-13', 'sort comparators: for every key type `cmp`, `cmp_eq`, `ordering` and '
+                       '`is_less_than` of one Comparator impl describe the same total order '
+                       '(ordering = Less <=> cmp; cmp_eq <=> ordering != Greater; ascending impls '
+                       'order by <, descending by >), checked on all orderings of two keys', floor=17)
+    ast = ctx.ast
+    f = 'src/engine/operators/comparator.rs'
+    impls = {}
+    for (p, q, n) in ast.fns:
+        if p.endswith(f) and '<Cmp' in q and ' as Comparator<' in q.replace('as', ' as ').replace('  ', ' ') \
+                or (p.endswith(f) and q.startswith('<Cmp') and 'Comparator<' in q):
+            impl, name = q.rsplit('::', 1)
+            impls.setdefault(impl, {})[name] = n
+    ctx.require(len(impls) >= 17, 'TBL-13: fewer than 17 Comparator impls found (%d)' % len(impls))
+    decided = 0
+    for impl in sorted(impls):
+        fns = impls[impl]
+        if not {'cmp', 'cmp_eq', 'ordering', 'is_less_than'} <= set(fns):
+            ctx.violation('TBL-13', '%s|complete' % impl, 'impl lacks one of cmp/cmp_eq/ordering/'
+                          'is_less_than: %s' % sorted(fns), f)
+            continue
+        asc = impl.startswith('<CmpLessThan')
+        is_opt = 'Comparator<Option<' in impl
+        is_val = 'Comparator<Val<' in impl
+        where_ = '%s:%d' % (f, fns['ordering']['l'])
+        try:
+            ilt = _cmp_eval(fns['is_less_than']['body'], {}, None)
+            problems = []
+            if ilt != asc:
+                problems.append('is_less_than() = %s in %s' % (ilt, impl.split(' ')[0].strip('<')))
+            if is_val:
+                # `ordering` ranks the value kinds (a table over Val variants, not decided here);
+                # cmp / cmp_eq must be its Less / not-Greater projections
+                for o in (-1, 0, 1):
+                    c = _cmp_eval(fns['cmp']['body'], {}, o)
+                    ce = _cmp_eval(fns['cmp_eq']['body'], {}, o)
+                    if c != (o == -1):
+                        problems.append('cmp = %s when ordering = %d' % (c, o))
+                    if ce != (o != 1):
+                        problems.append('cmp_eq = %s when ordering = %d' % (ce, o))
+            else:
+                scen = []
+                for (l, r) in ((1, 2), (2, 2), (2, 1)):
+                    scen.append(((('S', l), ('S', r)) if is_opt else (l, r), 'l%sr' % '<=>'[(l > r) - (l < r) + 1]))
+                if is_opt:
+                    scen += [((('S', 1), None), 'Some/None'), ((None, ('S', 1)), 'None/Some'),
+                             ((None, None), 'None/None')]
+                for (lv, rv), label in scen:
+                    env = {'left': lv, 'right': rv}
+                    c = _cmp_eval(fns['cmp']['body'], env, None)
+                    ce = _cmp_eval(fns['cmp_eq']['body'], env, None)
+                    o = _cmp_eval(fns['ordering']['body'], env, None)
+                    if not (isinstance(o, tuple) and o[0] == 'ord'):
+                        raise _Undecided('ordering does not evaluate to an Ordering')
+                    o = o[1]
+                    if c != (o == -1):
+                        problems.append('%s: cmp = %s but ordering = %s' % (label, c, {-1: 'Less', 0: 'Equal', 1: 'Greater'}[o]))
+                    if ce != (o != 1):
+                        problems.append('%s: cmp_eq = %s but ordering = %s' % (label, ce, {-1: 'Less', 0: 'Equal', 1: 'Greater'}[o]))
+                    if label in ('l<r', 'l>r'):
+                        want = (label == 'l<r') == asc
+                        if c != want:
+                            problems.append('%s: cmp = %s in an %s comparator' % (label, c, 'ascending' if asc else 'descending'))
+            decided += 1
+            ctx.check('TBL-13', '%s|consistent' % impl, not problems,
+                      'cmp / cmp_eq / ordering / is_less_than agree on every ordering of two keys'
+                      if not problems else '; '.join(problems), where_)
+        except _Undecided as e:
+            ctx.note('TBL-13: %s not decided (%s)' % (impl, e))
+    ctx.require(decided >= 17, 'TBL-13: only %d comparator impls could be decided' % decided)
